@@ -1,9 +1,12 @@
-import ElkVerif.Model.Regex.Transpile
+import ElkVerif.Model.Regex.Front
 import Driver.Util
 /-! domain `rx` (C21): the transpiler model.
 
 `rx<TAB>trm<TAB>flags<TAB>astdump`   (astdump = prefix form printed by harness/dom/rx.go `dumpRx`, `,`-separated)
 answer: `out=<hex of UTF-8>` (`out=-` when empty) | `terr=<hex of messages joined by \n>` | `panic`
+`rx<TAB>tr<TAB>flags<TAB>pathex<TAB>lettershex`   the whole front end on the pattern text: lexer + parser port, then the
+transpiler model; `letters` = the non-ASCII runes of the pattern that `unicode.IsLetter` accepts
+answer (same shape as the harness): `ast=<dump> out=…|terr=…|panic` | `perr=<number of diagnostics> -` | `stuck`
 -/
 namespace Driver.Dom.Rx
 open Elk.Regex Driver
@@ -151,16 +154,64 @@ def parseAst (s : String) : Option Node :=
   | some (n, []) => some n
   | _ => none
 
+def hxs (s : Str) : String := toHex (encode s)
+def b01 (b : Bool) : String := if b then "1" else "0"
+
+mutual
+def dump : Node → List String
+  | .concat els => ["cat", toString (els.toList.length)] ++ dumps els
+  | .union l r => ["or"] ++ dump l ++ dump r
+  | .zeroOrOne r a => ["q?", b01 a] ++ dump r
+  | .zeroOrMore r a => ["q*", b01 a] ++ dump r
+  | .oneOrMore r a => ["q+", b01 a] ++ dump r
+  | .nQuant r n a => ["qn", b01 a, hxs n] ++ dump r
+  | .nmQuant r n m a => ["qnm", b01 a, hxs n, hxs m] ++ dump r
+  | .group r name st us nc => ["grp", hxs name, toString st.toNat, toString us.toNat, b01 nc] ++ dump r
+  | .groupNoRegex name st us nc => ["grp0", hxs name, toString st.toNat, toString us.toNat, b01 nc]
+  | .charClass els neg => ["cc", b01 neg, toString (els.toList.length)] ++ dumps els
+  | .charRange l r => ["rng"] ++ dump l ++ dump r
+  | .namedCharClass name neg => ["ncc", b01 neg, hxs name]
+  | .char c => ["ch", toString c]
+  | .metaCharEscape c => ["meta", toString c]
+  | .quotedText s => ["qt", hxs s]
+  | .caretEscape c => ["caret", toString c]
+  | .unicodeEscape s => ["u", hxs s]
+  | .hexEscape s => ["x", hxs s]
+  | .octalEscape s => ["o", hxs s]
+  | .unicodeCharClass s neg => ["p", b01 neg, hxs s]
+  | .bell => ["bell"] | .formFeed => ["ff"] | .tab => ["tab"] | .newline => ["nl"] | .carriageReturn => ["cr"]
+  | .startOfString => ["^"] | .endOfString => ["$"] | .absStart => ["A"] | .absEnd => ["z"]
+  | .wordBoundary => ["b"] | .notWordBoundary => ["B"]
+  | .word => ["w"] | .notWord => ["W"] | .digit => ["d"] | .notDigit => ["D"] | .whitespace => ["s"]
+  | .notWhitespace => ["S"] | .hWhitespace => ["h"] | .notHWhitespace => ["H"] | .vWhitespace => ["v"]
+  | .notVWhitespace => ["V"] | .anyChar => ["dot"] | .invalid => ["invalid"]
+def dumps : Nodes → List String
+  | .nil => []
+  | .cons n rest => dump n ++ dumps rest
+end
+
+
 def showRes : Res → String
   | .ok out => "out=" ++ toHex (encode out)
   | .errs msgs => "terr=" ++ toHex (("\n".intercalate msgs).toUTF8.toList.map (·.toNat))
   | .panic => "panic"
+
+def handleTr (flags pat letters : String) : String :=
+  match parseNat? flags, hexBytes pat, hexStr letters with
+  | some f, some bs, some ls =>
+    let (n, nerr, stuck) := Elk.Regex.Front.parseBytes ls bs
+    if stuck then "stuck"
+    else if nerr > 0 then s!"perr={nerr} -"
+    else "ast=" ++ ",".intercalate (dump n) ++ " " ++ showRes (transpile n (Flags.ofNat f))
+  | _, _, _ => "bad-op"
 
 def handle : List String → String
   | ["trm", flags, ast] =>
     match parseNat? flags, parseAst ast with
     | some f, some n => showRes (transpile n (Flags.ofNat f))
     | _, _ => "bad-op"
+  | ["tr", flags, pat] => handleTr flags pat "-"
+  | ["tr", flags, pat, letters] => handleTr flags pat letters
   | _ => "bad-op"
 
 end Driver.Dom.Rx
